@@ -25,6 +25,7 @@ var (
 	flagJSON     = flag.Bool("json", false, "print obligations as JSON on stdout (used by self-validation)")
 	flagVerbose  = flag.Bool("v", false, "print every obligation")
 	flagArch     = flag.String("goarch", "", "GOARCH to analyse (default amd64)")
+	flagDump     = flag.String("dump", "", "dump the SSA of the named function (debug)")
 )
 
 func main() {
@@ -38,6 +39,23 @@ func main() {
 	}
 	if *flagList {
 		listRules()
+		return
+	}
+	if *flagDump != "" {
+		ctx, err := load(*flagRepo, "amd64", false)
+		if err != nil {
+			fmt.Println(err)
+			os.Exit(2)
+		}
+		for _, fn := range ctx.allFuncs {
+			if fnName(fn) == *flagDump {
+				fn.WriteTo(os.Stdout)
+				fi := ctx.info(fn)
+				for _, b := range fn.Blocks {
+					fmt.Printf("block %d facts: %s\n", b.Index, factStrings(fi.factsAt(b)))
+				}
+			}
+		}
 		return
 	}
 	if *flagReplay != "" {
